@@ -8,43 +8,39 @@ open AsyncsshModel
 
 /-! ### the send loop terminates when the peer's maximum packet size is positive -/
 
-theorem flushSend_some (c : Chan) (hp : 0 < c.sendPktsize) : ∃ r, flushSend c = some r := by
+theorem flushSend_some (c : Chan) : ∃ r, flushSend c = some r := by
   unfold flushSend
-  have := flushData_terminates (flushFuel c) c hp (by unfold flushFuel; omega)
+  have := flushData_terminates (flushFuel c) c (by unfold flushFuel; omega)
   cases h : flushData (flushFuel c) c with
   | none => rw [h] at this; simp at this
   | some r => obtain ⟨c1, ms⟩ := r; exact ⟨_, rfl⟩
 
-theorem writeEof_some (c : Chan) (hp : 0 < c.sendPktsize) : ∃ r, writeEof c = some r := by
+theorem writeEof_some (c : Chan) : ∃ r, writeEof c = some r := by
   unfold writeEof
   split
-  · exact flushSend_some _ hp
+  · exact flushSend_some _
   · exact ⟨_, rfl⟩
 
-theorem eofStep_some (c : Chan) (hp : 0 < c.sendPktsize) : ∃ r, eofStep c = some r := by
+theorem eofStep_some (c : Chan) : ∃ r, eofStep c = some r := by
   unfold eofStep
   split
   · dsimp only
     split
-    · obtain ⟨r, hr⟩ := writeEof_some { c with recvState := .eof } hp
+    · obtain ⟨r, hr⟩ := writeEof_some { c with recvState := .eof }
       rw [hr]; obtain ⟨c3, ms⟩ := r; exact ⟨_, rfl⟩
     · exact ⟨_, rfl⟩
   · exact ⟨_, rfl⟩
 
-theorem flushRecv_some (c : Chan) (hp : 0 < c.sendPktsize) : ∃ r, flushRecv c = some r := by
+theorem flushRecv_some (c : Chan) : ∃ r, flushRecv c = some r := by
   unfold flushRecv
-  have hd := drainRecv_spec c.recvBuf c
-  have hp1 : 0 < ({ (drainRecv c c.recvBuf).1 with recvBuf := (drainRecv c c.recvBuf).2.1 } : Chan).sendPktsize := by
-    show 0 < (drainRecv c c.recvBuf).1.sendPktsize
-    rw [hd.same.sendPktsize]; exact hp
-  obtain ⟨r, hr⟩ := eofStep_some _ hp1
+  obtain ⟨r, hr⟩ := eofStep_some { (drainRecv c c.recvBuf).1 with recvBuf := (drainRecv c c.recvBuf).2.1 }
   simp only [hr]
   obtain ⟨c2, ms2, os2⟩ := r
   exact ⟨_, rfl⟩
 
-/-- with a positive maximum packet size an event either succeeds or fails with one of the protocol / API
-    errors checked at its entry; it never spins -/
-theorem step_not_spin (c : Chan) (ev : Ev) (hp : 0 < c.sendPktsize) : step c ev ≠ .error .spin := by
+/-- an event either succeeds or fails with one of the protocol / API errors checked at its entry; since fix
+    de5c08f it never spins, whatever maximum packet size the peer advertised -/
+theorem step_not_spin (c : Chan) (ev : Ev) : step c ev ≠ .error .spin := by
   cases ev with
   | write dt bs =>
     simp only [step]
@@ -54,18 +50,18 @@ theorem step_not_spin (c : Chan) (ev : Ev) (hp : 0 < c.sendPktsize) : step c ev 
       · simp
       · split
         · simp
-        · obtain ⟨r, hr⟩ := flushSend_some { c with sendBuf := c.sendBuf ++ [(bs, dt)] } hp
+        · obtain ⟨r, hr⟩ := flushSend_some { c with sendBuf := c.sendBuf ++ [(bs, dt)] }
           rw [hr]; obtain ⟨c1, ms⟩ := r; simp [liftSend]
   | writeEof =>
     simp only [step]
-    obtain ⟨r, hr⟩ := writeEof_some c hp
+    obtain ⟨r, hr⟩ := writeEof_some c
     rw [hr]; obtain ⟨c1, ms⟩ := r; simp [liftSend]
   | close =>
     simp only [step]
     split
     · rename_i h1
       split at h1
-      · obtain ⟨r, hr⟩ := flushSend_some { c with sendState := .closePending } hp
+      · obtain ⟨r, hr⟩ := flushSend_some { c with sendState := .closePending }
         rw [hr] at h1; cases h1
       · cases h1
     · split <;> simp
@@ -73,14 +69,14 @@ theorem step_not_spin (c : Chan) (ev : Ev) (hp : 0 < c.sendPktsize) : step c ev 
   | resume =>
     simp only [step]
     split
-    · obtain ⟨r, hr⟩ := flushRecv_some { c with recvPaused := .no } hp
+    · obtain ⟨r, hr⟩ := flushRecv_some { c with recvPaused := .no }
       rw [hr]; simp [liftRecv]
     · simp
   | armPause k => simp [step]
   | startReading =>
     simp only [step]
     split
-    · obtain ⟨r, hr⟩ := flushRecv_some { c with recvPaused := .no } hp
+    · obtain ⟨r, hr⟩ := flushRecv_some { c with recvPaused := .no }
       rw [hr]; simp [liftRecv]
     · simp
   | recv m =>
@@ -96,22 +92,20 @@ theorem step_not_spin (c : Chan) (ev : Ev) (hp : 0 < c.sendPktsize) : step c ev 
       simp only [step, recvMsg]
       split
       · simp
-      · obtain ⟨r, hr⟩ := flushSend_some { c with sendWindow := c.sendWindow + n } hp
+      · obtain ⟨r, hr⟩ := flushSend_some { c with sendWindow := c.sendWindow + n }
         rw [hr]; obtain ⟨c1, ms⟩ := r; simp [liftSend]
     | eof =>
       simp only [step, recvMsg]
       split
       · simp
-      · obtain ⟨r, hr⟩ := flushRecv_some { c with recvState := .eofPending } hp
+      · obtain ⟨r, hr⟩ := flushRecv_some { c with recvState := .eofPending }
         rw [hr]; simp [liftRecv]
     | close =>
       simp only [step, recvMsg]
       split
       · simp
-      · have hp1 : 0 < ({ (closeSend c).1 with recvState := .closePending } : Chan).sendPktsize := by
-          show 0 < (closeSend c).1.sendPktsize
-          unfold closeSend; split <;> exact hp
-        obtain ⟨r, hr⟩ := flushRecv_some _ hp1
+      · obtain ⟨r, hr⟩ := flushRecv_some
+          { (closeSend c).1 with recvEofPending := decide (c.recvState = .eofPending), recvState := .closePending }
         simp only [hr]
         obtain ⟨c2, ms, os⟩ := r
         simp
@@ -155,7 +149,11 @@ theorem flushData_types (wt : List Nat) : ∀ (fuel : Nat) (c c' : Chan) (ms : L
       · simp only [Option.some.injEq, Prod.mk.injEq] at h
         obtain ⟨rfl, rfl⟩ := h
         exact ⟨hok, bufOK_nil _⟩
-      · simp only at h
+      · split at h
+        · simp only [Option.some.injEq, Prod.mk.injEq] at h
+          obtain ⟨rfl, rfl⟩ := h
+          exact ⟨hok, bufOK_nil _⟩
+        simp only at h
         split at h
         · simp at h
         · rename_i c2 ms2 hrec
@@ -308,7 +306,6 @@ structure TInv (s : Sys) : Prop where
   buf : ∀ x, bufOK (s.ep x).writeTypes (s.ep x).sendBuf
   link : ∀ x, bufOK (s.ep x).writeTypes (dataOf (s.link x.other))
   compat : ∀ x t, t ∈ (s.ep x).writeTypes → t ∈ (s.ep x.other).readTypes
-  pkt : ∀ x, 0 < (s.ep x).sendPktsize
 
 theorem dataOf_tail_sub (m : Msg) (rest : List Msg) : ∀ p ∈ dataOf rest, p ∈ dataOf (m :: rest) := by
   intro p hp; cases m <;> simp [dataOf, hp]
@@ -321,7 +318,7 @@ theorem tinv_step_core (s s' : Sys) (z : Side) (ev : Ev) (c' : Chan) (ms : List 
     (hl1 : s'.link z = linkz') (hl2 : s'.link z.other = s.link z.other ++ ms) : TInv s' := by
   have hcfg := (step_sum _ _ _ _ _ (hinv.wf z) hstep).cfg
   obtain ⟨hb, hm⟩ := step_types _ _ _ _ _ (ht.buf z) hstep
-  refine ⟨?_, ?_, ?_, ?_⟩
+  refine ⟨?_, ?_, ?_⟩
   · intro x
     rcases Side.eq_or_other x z with rfl | rfl
     · rw [he1, hcfg.writeTypes]; exact hb
@@ -341,10 +338,6 @@ theorem tinv_step_core (s s' : Sys) (z : Side) (ev : Ev) (c' : Chan) (ms : List 
     · rw [Side.other_other, he1, he2, hcfg.readTypes]
       have := ht.compat z.other t
       rw [Side.other_other] at this; exact this
-  · intro x
-    rcases Side.eq_or_other x z with rfl | rfl
-    · rw [he1, hcfg.sendPktsize]; exact ht.pkt x
-    · rw [he2]; exact ht.pkt _
 
 theorem tinv_step (s s' : Sys) (ev : Event) (hinv : Inv s) (ht : TInv s) (h : s.step ev = .ok s') : TInv s' := by
   cases ev with
@@ -427,7 +420,7 @@ theorem step_app_err (c : Chan) (e : AppEv) (err : Err) (h : step c e.toEv = .er
       · cases h
     · cases h
 
-/-- In every reachable state of two honest endpoints with positive maximum packet sizes, EVERY event succeeds:
+/-- In every reachable state of two honest endpoints (ANY maximum packet sizes), EVERY event succeeds:
     no delivery raises `ProtocolError` (window exceeded, channel not open, bad extended datatype) and the send
     loop always terminates. -/
 theorem no_fatal (s : Sys) (hinv : Inv s) (ht : TInv s) (ev : Event) : ∃ s', s.step ev = .ok s' := by
@@ -439,7 +432,7 @@ theorem no_fatal (s : Sys) (hinv : Inv s) (ht : TInv s) (ev : Event) : ∃ s', s
     | error err =>
       rcases step_app_err _ _ _ hr with h1 | h1
       · simp only [h1, if_true]; exact ⟨_, rfl⟩
-      · subst h1; exact absurd hr (step_not_spin _ _ (ht.pkt z))
+      · subst h1; exact absurd hr (step_not_spin _ _)
   | deliver z =>
     simp only [Sys.step]
     cases hl : s.link z with
@@ -452,7 +445,7 @@ theorem no_fatal (s : Sys) (hinv : Inv s) (ht : TInv s) (ev : Event) : ∃ s', s
       rw [hl] at hlk
       suffices h : ∃ r, Channel.step (s.ep z) (.recv m) = .ok r by
         obtain ⟨r, hr⟩ := h; rw [hr]; exact ⟨_, rfl⟩
-      have hns := step_not_spin (s.ep z) (.recv m) (ht.pkt z)
+      have hns := step_not_spin (s.ep z) (.recv m)
       cases m with
       | data dt bs =>
         simp only [LinkOK] at hlk
@@ -465,7 +458,8 @@ theorem no_fatal (s : Sys) (hinv : Inv s) (ht : TInv s) (ev : Event) : ∃ s', s
         have hacct := hd.acct
         rw [hl] at hacct
         simp only [dataOf, bufBytes] at hacct
-        have hw : ¬ ((bs.length : Int) > (s.ep z).recvWindow) := by push_cast at hacct; omega
+        have hw : ¬ ((bs.length : Int) > (s.ep z).recvWindow - bufBytes (s.ep z).recvBuf) := by
+          push_cast at hacct; omega
         simp only [step, recvMsg, hs, ne_eq, not_true_eq_false, if_false, hty, hw]
         exact ⟨_, rfl⟩
       | adjust n =>
@@ -486,21 +480,18 @@ theorem no_fatal (s : Sys) (hinv : Inv s) (ht : TInv s) (ev : Event) : ∃ s', s
         simp only [LinkOK] at hlk
         have ho := rStage_le_one hlk.1
         simp only [step, recvMsg, ho, not_true_eq_false, if_false] at hns ⊢
-        cases hf : flushRecv { (closeSend (s.ep z)).1 with recvState := .closePending } with
+        cases hf : flushRecv { (closeSend (s.ep z)).1 with recvEofPending := decide ((s.ep z).recvState = .eofPending), recvState := .closePending } with
         | none => rw [hf] at hns; simp at hns
         | some r => obtain ⟨c2, ms2, os2⟩ := r; exact ⟨_, rfl⟩
 
 theorem tinv_init (ca cb : SideCfg) (h1 : ∀ t, t ∈ ca.writeTypes → t ∈ cb.readTypes)
-    (h2 : ∀ t, t ∈ cb.writeTypes → t ∈ ca.readTypes) (hpa : 0 < ca.pktsize) (hpb : 0 < cb.pktsize) :
+    (h2 : ∀ t, t ∈ cb.writeTypes → t ∈ ca.readTypes) :
     TInv (Sys.init ca cb) := by
-  refine ⟨?_, ?_, ?_, ?_⟩
+  refine ⟨?_, ?_, ?_⟩
   · intro x; cases x <;> exact bufOK_nil _
   · intro x; cases x <;> exact bufOK_nil _
   · intro x t; cases x
     · exact h1 t
     · exact h2 t
-  · intro x; cases x
-    · exact hpb
-    · exact hpa
 
 end AsyncsshModel.Channel
